@@ -62,6 +62,7 @@ def _one_chunk(args):
     nlines = sum(1 for _ in open(trc))
     msgs, drift, xstat, states, distinct = [], [], [], 0, 0
     itsteps = 0
+    mlsteps = 0
     for sp in spec.split("+"):
         r = vlib.run_tlc(os.path.join(vlib.SPEC, sp + ".tla"), os.path.join(vlib.SPEC, sp + ".cfg"),
                          os.path.join(bdir, "tlc_%s_%03d" % (sp, idx)), env={"TRACE": trc}, workers=1, timeout=3000, xmx="1g")
@@ -78,11 +79,13 @@ def _one_chunk(args):
         distinct += r.distinct
         for body in _tuples(r.out, "ITSTEPS"):
             itsteps += int(body)
+        for body in _tuples(r.out, "MLSTEPS"):
+            mlsteps += int(body)
     t2 = time.time()
     for m in msgs:
         m["chunk"] = idx
     return {"idx": idx, "beh": beh, "trace": trc, "lines": nlines, "states": states, "distinct": distinct,
-            "msgs": msgs, "drift": drift, "xstat": xstat, "itsteps": itsteps, "t_driver": t1 - t0, "t_tlc": t2 - t1, "execs": len(execs)}
+            "msgs": msgs, "drift": drift, "xstat": xstat, "itsteps": itsteps, "mlsteps": mlsteps, "t_driver": t1 - t0, "t_tlc": t2 - t1, "execs": len(execs)}
 
 
 def run_api(bdir, drv, beh_lines, nproc=None, spec="ApiTrace", drv_env=None):
@@ -93,7 +96,7 @@ def run_api(bdir, drv, beh_lines, nproc=None, spec="ApiTrace", drv_env=None):
         results = list(ex.map(_one_chunk, [(drv, bdir, i, c, spec, drv_env) for i, c in enumerate(chunks)]))
     msgs = [m for r in results for m in r["msgs"]]
     return {"results": results, "msgs": msgs, "execs": nexec, "drift": [d for r in results for d in r["drift"]],
-            "xstat": [(r["idx"],) + x for r in results for x in r["xstat"]], "lines": sum(r["lines"] for r in results), "itsteps": sum(r["itsteps"] for r in results),
+            "xstat": [(r["idx"],) + x for r in results for x in r["xstat"]], "lines": sum(r["lines"] for r in results), "itsteps": sum(r["itsteps"] for r in results), "mlsteps": sum(r["mlsteps"] for r in results),
             "states": sum(r["states"] for r in results), "distinct": sum(r["distinct"] for r in results)}
 
 
